@@ -1,6 +1,6 @@
 #!/bin/bash
 # tools/neutral_test.sh <dir with R*.diff> <checks...> : apply each semantics-preserving refactoring to a scratch worktree, run the checks (must exit 0)
-SRC=$1; shift
+SRC=$(cd "$1" && pwd); shift
 cd "$(dirname "$0")/.."
 for p in $SRC/R*.diff; do
   D=$(mktemp -d /tmp/ntXXXX); rmdir $D
